@@ -253,6 +253,11 @@ func (ro *RedisOutput) SetRunId(ctx context.Context, id string) error {
 			ro.logger.Errorf("update checkpoint error : cp(%s), runId(%s,%s), err(%v)", ro.cfg.CheckpointName, id, ro.cfg.RunId, err)
 		}
 		ro.logger.Infof("UpdateCheckpoint : cp(%s), runId(%s,%s)", ro.cfg.CheckpointName, id, ro.cfg.RunId)
+		if err != nil {
+			// only a re-key that went through changes the id the checkpoint is stored under:
+			// a retry after a failed attempt must still look it up under the previous id
+			return err
+		}
 		ro.cfg.RunId = id
 		return err
 	}, 3, time.Second*4, 0.3)
